@@ -527,6 +527,8 @@ def gen_conc_program(rng, profile):
             how = _w(rng, [('acquire', 4), ('ctx', 3), ('with', 4)])
             mode = _w(rng, [('default', 5), ('nb', 2), ('timed', 3)]) if how != 'with' else 'default'
             rounds.append({'obj': rng.randrange(nobj), 'how': how, 'mode': mode,
+                           # an inner nesting level whose body raises; the exception is handled inside the outer section
+                           'inner_raise': reentrant and rng.random() < 0.3,
                            'nest': rng.randint(1, 3) if reentrant else 1,
                            'hold': _w(rng, [(0.0, 5), (POLL / 2, 2), (SMALL + POLL, 2), (1.0, 1)]),
                            'yields': rng.randint(1, 4)})
@@ -588,10 +590,23 @@ class ConcWorld:
             return {'timeout': SMALL}
         return {}
 
-    def do_round(self, t, rnd, depth):
+    def inner(self, t, rnd, depth):
+        """Nested level(s) inside a held section.  With inner_raise the innermost body raises and the holder, still inside its
+        outer section, handles it and carries on working under the lock."""
+        if rnd.get('inner_raise') and depth == 1:
+            self.critical(t, self.locks[rnd['obj']], rnd, rnd['how'])
+            raise _BodyError()
+        try:
+            self.do_round(t, rnd, depth, top=False)
+        except _BodyError:
+            self.critical(t, self.locks[rnd['obj']], rnd, rnd['how'] + '+after-inner-exception')
+
+    def do_round(self, t, rnd, depth, top=True):
         lock = self.locks[rnd['obj']]
         how = rnd['how']
         kw = self.acq_kwargs(rnd)
+        if rnd.get('inner_raise') and rnd['nest'] > 1:
+            return self.do_round_raising(t, rnd, depth, top)
         if how == 'acquire':
             if lock.acquire(**kw):
                 try:
@@ -618,6 +633,46 @@ class ConcWorld:
                         self.do_round(t, rnd, depth - 1)
             except TimeoutError:
                 self.failed += 1
+
+    def do_round_raising(self, t, rnd, depth, top):
+        """depth levels of nesting; the innermost body raises, the level above it catches inside its own section."""
+        lock = self.locks[rnd['obj']]
+        how = rnd['how']
+        kw = self.acq_kwargs(rnd)
+
+        def body():
+            self.critical(t, lock, rnd, how)
+            if depth > 1:
+                try:
+                    self.do_round_raising(t, rnd, depth - 1, False)
+                except _BodyError:
+                    if depth == 2:
+                        # handled here, inside this level's section: the lock must still be ours
+                        self.critical(t, lock, rnd, how + '+after-inner-exception')
+                    else:
+                        raise
+            else:
+                raise _BodyError()
+        try:
+            if how == 'acquire':
+                if lock.acquire(**kw):
+                    try:
+                        body()
+                    finally:
+                        lock.release()
+                else:
+                    self.failed += 1
+            elif how == 'ctx':
+                with lock.acquire_ctx(**kw):
+                    body()
+            else:
+                with lock:
+                    body()
+        except TimeoutError:
+            self.failed += 1
+        except _BodyError:
+            if not top:
+                raise
 
     def worker(self, t):
         spec = self.prog['threads'][t]
